@@ -442,46 +442,46 @@ type pReqInfo struct {
 }
 
 type pWorld struct {
-	c         *Ctx
-	r         *Rng
-	cfgCap    int
-	batch     int
-	en4, en6  bool
-	nslots    int
-	maxIdles  int
-	minIdles  int
-	total     int
-	locks     []*schedLock
-	locals    []*eni.Local
-	mgr       *eni.Manager
-	cloud     *pCloud
-	evMu      sync.Mutex
-	events    []pEvent
-	kickCh    chan struct{}
-	roleMu    sync.Mutex
-	roles     map[int64]pRole // gid -> what the goroutine is doing for the harness
-	gidSlot   map[int64]int   // worker gid -> slot (from its regions)
-	allocRid  map[int64]int   // gid that ran Manager.Allocate -> request number
-	reqPtr    map[uintptr]int
-	ridDead   map[int]bool
-	reqs      map[int]*pReqInfo
-	nextRid   int
-	held      map[string]map[string][]int // pod -> eni -> ips (from replies)
-	heldBy    map[string]string           // "eni:ip" -> pod
-	everUsed  map[int]bool
-	goneWhy   map[string]string // "eni:ip" -> remote | unassigned
-	goneSeen  map[string]bool   // a sync has applied a cloud listing without it since
-	loadSaw   map[int64][]string // sync goroutine -> addresses its metadata read missed (applied at its next lock region)
-	seenSeq   map[string]int     // "eni:ip" -> event number of the sync region that applied the removal
-	bindSeq   map[string]int     // "eni:ip" -> event number of the lock region that last gave it a new owner
-	lastOwner map[string]string
+	c          *Ctx
+	r          *Rng
+	cfgCap     int
+	batch      int
+	en4, en6   bool
+	nslots     int
+	maxIdles   int
+	minIdles   int
+	total      int
+	locks      []*schedLock
+	locals     []*eni.Local
+	mgr        *eni.Manager
+	cloud      *pCloud
+	evMu       sync.Mutex
+	events     []pEvent
+	kickCh     chan struct{}
+	roleMu     sync.Mutex
+	roles      map[int64]pRole // gid -> what the goroutine is doing for the harness
+	gidSlot    map[int64]int   // worker gid -> slot (from its regions)
+	allocRid   map[int64]int   // gid that ran Manager.Allocate -> request number
+	reqPtr     map[uintptr]int
+	ridDead    map[int]bool
+	reqs       map[int]*pReqInfo
+	nextRid    int
+	held       map[string]map[string][]int // pod -> eni -> ips (from replies)
+	heldBy     map[string]string           // "eni:ip" -> pod
+	everUsed   map[int]bool
+	goneWhy    map[string]string  // "eni:ip" -> remote | unassigned
+	goneSeen   map[string]bool    // a sync has applied a cloud listing without it since
+	loadSaw    map[int64][]string // sync goroutine -> addresses its metadata read missed (applied at its next lock region)
+	seenSeq    map[string]int     // "eni:ip" -> event number of the sync region that applied the removal
+	bindSeq    map[string]int     // "eni:ip" -> event number of the lock region that last gave it a new owner
+	lastOwner  map[string]string
 	lastStatus map[int]string
-	loadFails bool
-	stop      chan struct{}
-	lines     []string
-	viol      [][2]string
-	balancing bool
-	focus     string
+	loadFails  bool
+	stop       chan struct{}
+	lines      []string
+	viol       [][2]string
+	balancing  bool
+	focus      string
 }
 
 func (w *pWorld) record(e pEvent) {
